@@ -31,10 +31,12 @@ structure Guard where
   deriving DecidableEq, Repr
 
 /-- one `case` of the converter's switch, fall-through resolved:
-    guards, then `[if (dest)] *((store *) dest) = val;`, then `return ret;` -/
+    guards, then `*((store *) dest) = val;` — bare, or under `if (dest)`, where the `if (dest) { .. }` block
+    may contain further guards (`destGuards`) in front of the store —, then `return ret;` -/
 structure Case where
   code : Nat
   guards : List Guard
+  destGuards : List Guard
   store : CTy
   guarded : Bool
   ret : Nat
